@@ -104,11 +104,15 @@ impl TailsWriter for TailsFileWriter {
         struct TempFile<'a>(&'a Path);
         impl TempFile<'_> {
             pub fn rename(self, target: &Path) -> Result<(), Error> {
-                let path = std::mem::ManuallyDrop::new(self).0;
+                let path = self.0;
                 #[cfg(anoncreds_verif)]
                 crate::verif::failpoint::hit("tails:rename")?;
                 std::fs::rename(path, target)
-                    .map_err(|e| err_msg!("Error moving tails temp file {path:?}: {e}"))
+                    .map_err(|e| err_msg!("Error moving tails temp file {path:?}: {e}"))?;
+                // the file now lives under its final name: only then defuse the drop guard,
+                // so that a failed rename still removes the temporary file
+                std::mem::forget(self);
+                Ok(())
             }
         }
         impl Drop for TempFile<'_> {
